@@ -20,6 +20,8 @@ def gadgets():
         "vchain4": [L([(-6, 2), (-3, 0)]), L([(-3, 0), (0, 1)]), L([(4, -1), (0, 1)]), L([(4, -1), (7, 3)])],
         "multijunction": [L([(-5, 0), (5, 0)]), L([(0, -5), (0, 5)]), L([(-4, -4), (4, 4)])],
         "stacked": [L([(-5, 0), (5, 0)]), L([(-2, 0), (8, 0)])],
+        # a trace lying ON another for part of its length whose free end dangles inside the snap error band: the under/overlap validator reports it as STACKED
+        "stacked_dangling": [L([(-5, 0), (5, 0)]), L([(-2, 0), (2, 0), (2.5, 0.0105)])],
         "cuts_itself": [L([(-5, 0), (5, 0), (5, 5), (0, -5)])],
         "ring": [L([(0, 0), (5, 0), (5, 5), (0, 0)])],
         "underlap": [L([(-5, 0), (5, 0)]), L([(0, 3), (0, 0.0105)])],
